@@ -243,6 +243,7 @@ package xmpp
 //@   callsite (*bindIQ).WriteXML#1
 //@     preserves session.state, session.negotiated, session.features, session.in.d
 //@     assert[C12] arg0.IQ.ID == iqid
+//@     assert[C12] forall k int :: 0 <= k && k < len(start.Attr) && unq(start.Attr[k], "id") && (forall j int :: 0 <= j && j < k ==> !unq(start.Attr[j], "id")) ==> arg0.IQ.ID == start.Attr[k].Value
 //@     assert[C12,C04] ok ==> arg0.IQ.Type == "error" && arg0.Err != nil
 //@     assert[C12,C04] !ok ==> arg0.IQ.Type == "result" && arg0.Err == nil && arg0.Bind.JID == j
 //@     after: refused = ok
